@@ -27,7 +27,23 @@ def roles(fs, f, params):
     env = LocalEnv(f)
     env.param_roles(params)
     is_lit_t = lambda n: n.get('t') in ('const smt::lit', 'smt::lit')
-    env.local_role('ctr', lambda n, i: is_lit_t(n) and i is not None and (i == FRESH or (isinstance(i, tuple) and i[0] == 'mcall' and i[1].startswith(SC + 'new_'))), many=True)
+    # the literal a constructor DEFINES is the one it returns / stores in the expression cache (a named operand such as `amo = new_at_most_one(ls)` is not)
+    defined = set()
+    for n in f.nodes():
+        if n.get('k') == 'ReturnStmt' and n.get('c'):
+            x = n['c'][0]
+            while x.get('k') in ('CXXConstructExpr',) and len(x.get('c') or ()) == 1:
+                x = x['c'][0]
+            if x.get('k') == 'DeclRefExpr' and x.get('local'):
+                defined.add(x.get('dloc'))
+        if n.get('k') == 'CXXMemberCallExpr' and (n.get('callee_name') or '').endswith('::emplace'):
+            for a in (n.get('c') or [])[1:]:
+                x = a
+                while x.get('k') in ('CXXConstructExpr',) and len(x.get('c') or ()) == 1:
+                    x = x['c'][0]
+                if x.get('k') == 'DeclRefExpr' and x.get('local'):
+                    defined.add(x.get('dloc'))
+    env.local_role('ctr', lambda n, i: is_lit_t(n) and n.get('loc') in defined and i is not None and (i == FRESH or (isinstance(i, tuple) and i[0] == 'mcall' and i[1].startswith(SC + 'new_'))), many=True)
     env.local_role('s_expr', lambda n, i: n.get('t') in (STR_T, 'const ' + STR_T), many=True)
     return env
 
